@@ -3,7 +3,7 @@ prop("C43",
                "NeoFS.ShardMode.setMode_recovers", "NeoFS.ShardMode.failed_switch", "NeoFS.ShardMode.settled_inv",
                "NeoFS.ShardMode.behaviour_matches_mode_partial", "NeoFS.ShardMode.C43_counterexample",
                "NeoFS.ShardMode.rw_restores", "NeoFS.ShardMode.switch_keeps_objects", "NeoFS.ShardMode.step_cfg",
-               "NeoFS.ShardMode.switch_order_facts", "NeoFS.ShardMode.modes_table"],
+               "NeoFS.ShardMode.switch_order_facts", "NeoFS.ShardMode.modes_table", "NeoFS.ShardMode.reopen_consistent"],
      engines=[dict(name="modes", quick=1, thorough=1)],
      claim="Lean proves over the shard-mode model (state = reported mode + the modes metabase, blobstor and write-cache are actually in + "
            "stored data; SetMode = the components switched one after another in the order of Shard.setMode, stopping at the first "
@@ -30,7 +30,12 @@ prop("C43",
           "guards, shape of Shard.setMode: base order + reversal condition - switch_order_facts). Injected failures are whole-component "
           "failures at entry plus the bolt reopening inside the metabase; a failing blobstor Close/Open/Init or write-cache store reopening "
           "half-way is not modelled (FSTree.Open cannot fail; Close failure leaves the shard's blobStorStale flag set so that the next "
-          "switch retries - read, not exercised). Shard.Reload and handleMetabaseFailure (automatic switch on metabase errors at "
+          "switch retries - read, not exercised). The close/open cycle without Init (op `reopen`, engine BlockExecution/ResumeExecution; C14's "
+          "extension of the shared model) opens every component for writing without re-applying the mode: outside read-write it "
+          "separates reported and actual modes by construction; consistent_step, metaWF_step, settled_inv and "
+          "behaviour_matches_mode_partial are stated for histories WITHOUT it (hypothesis isReopen = false), reopen_consistent shows "
+          "the cycle keeps the agreement in read-write mode, setMode_recovers (any MetaWF state) still applies after it in modes with "
+          "metabase; the C43 generator does not emit it (`settle`, the real scheduler tick, it does). Shard.Reload and handleMetabaseFailure (automatic switch on metabase errors at "
           "Open/Init) call the same setMode and are not driven. Known findings: C43-partial-switch, C43-partial-switch-flush "
           "(known_findings.d/C43.json).",
      rule=PROPS["C14"]["rule"],  # same engine and generator family (lib/propdefs/C14.py)
